@@ -88,6 +88,8 @@ impl Spawner {
             .arg(self.tier)
             .arg(journal)
             .arg(digest_arg)
+            // a dying worker must not spend seconds symbolising a backtrace
+            .env("RUST_BACKTRACE", "0")
             .stdin(Stdio::piped())
             .stdout(Stdio::piped())
             .stderr(if quiet { Stdio::null() } else { Stdio::inherit() })
@@ -471,33 +473,6 @@ pub fn run(ctx: Ctx) -> ! {
         replay(&ctx, &world, &spawner, &scratch, &path);
     }
 
-    if let Ok(name) = std::env::var("C09_BENCH") {
-        for s in world.seeds.iter().filter(|s| s.name == name) {
-            for &e in s.entries.iter().take(2) {
-                let t = Instant::now();
-                let n = 2000;
-                for _ in 0..n {
-                    std::hint::black_box((world.cat[e].call)(&s.bytes, false));
-                }
-                eprintln!("{} {} len={} : {:.2} us/call (value+digest)", s.name, world.cat[e].name, s.bytes.len(), t.elapsed().as_secs_f64() * 1e6 / n as f64);
-                let mut b = s.bytes.clone();
-                let k = b.len() / 2;
-                b[k] = 0xff;
-                let t = Instant::now();
-                for _ in 0..n {
-                    std::hint::black_box((world.cat[e].call)(&b, false));
-                }
-                eprintln!("   faulted in the middle: {:.2} us/call  {:?}", t.elapsed().as_secs_f64() * 1e6 / n as f64, (world.cat[e].call)(&b, false).res);
-                let t = Instant::now();
-                for _ in 0..n {
-                    std::hint::black_box(pallas_traverse::MultiEraBlock::decode(&s.bytes).is_ok());
-                }
-                eprintln!("   raw MultiEraBlock::decode: {:.2} us/call", t.elapsed().as_secs_f64() * 1e6 / n as f64);
-            }
-        }
-        let _ = std::fs::remove_dir_all(&scratch);
-        std::process::exit(0);
-    }
     if std::env::var("C09_STATS").is_ok() {
         let mut by: BTreeMap<String, Vec<usize>> = BTreeMap::new();
         for s in &world.seeds {
@@ -814,7 +789,15 @@ pub fn run(ctx: Ctx) -> ! {
                 pr.close();
                 out
             } else {
-                shrink(input.clone(), &mut |b| matches!(world.probe(g.entry, b), Res::Panic(p) if p.location == g.location), &mut budget)
+                // in a probe worker too: a shrunk candidate may well abort
+                let mut pr = Prober { sp: &spawner, journal: scratch.join(format!("journal-shrink-{idx}")), proc: None };
+                let out = shrink(
+                    input.clone(),
+                    &mut |b| matches!(pr.probe(g.entry, b), Ok(v) if v.get("panic").and_then(|p| p.get("location")).and_then(|l| l.as_str()) == Some(g.location.as_str())),
+                    &mut budget,
+                );
+                pr.close();
+                out
             };
             let case = json!({
                 "entry_point": world.cat[g.entry].name,
@@ -861,7 +844,6 @@ pub fn run(ctx: Ctx) -> ! {
             })
         })
         .collect();
-    let _ = std::fs::remove_dir_all(&scratch);
 
     // ---- evidence
     let nontrivial: u64 = agg.per_entry.values().map(|s| s.nontrivial).sum();
@@ -901,7 +883,8 @@ pub fn run(ctx: Ctx) -> ! {
             }
         })
         .collect();
-    let samples = make_samples(&world, &units);
+    let samples = make_samples(&world, &units, &spawner, &scratch);
+    let _ = std::fs::remove_dir_all(&scratch);
     let cov = mc_core::cov! {
         "evaluations" => agg.evaluated,
         "distinct_nontrivial" => nontrivial,
@@ -934,7 +917,7 @@ pub fn run(ctx: Ctx) -> ! {
         &[
             "single faults of real artefacts, pairwise splices and strings of length <= 2 only; multi-fault corruptions and synthetic nesting bombs are outside the bound",
             "built with overflow checks and debug assertions (dev-build panic semantics)",
-            "workers: 8 MiB decoding stack, 8 GiB address-space limit; a worker killed by a signal or silent for 120 s counts as an abort of the journaled call",
+            "workers: 8 MiB decoding stack, 2 GiB address-space limit; a worker killed by a signal or silent for 120 s counts as an abort of the journaled call",
             "accessors of successfully decoded values (hash, slot, txs, inputs, outputs, addresses, mint, fee, Debug) are exercised but a panic there is a diagnostic, not a violation: the property text covers decoding only",
             "text entry points (from_hex, from_bech32, from_str, from_base58) cannot be called with non-UTF-8 input; such faulted inputs are skipped and counted",
         ],
@@ -991,7 +974,8 @@ fn splice_representatives(world: &World, members: &[usize]) -> Vec<usize> {
     out
 }
 
-fn make_samples(world: &World, units: &[Unit]) -> Vec<Value> {
+fn make_samples(world: &World, units: &[Unit], spawner: &Spawner, scratch: &Path) -> Vec<Value> {
+    let mut pr = Prober { sp: spawner, journal: scratch.join("journal-samples"), proc: None };
     // a few actual cases: one per unit kind and family, deterministic picks
     let mut out = vec![];
     let mut seen = BTreeSet::new();
@@ -1011,12 +995,15 @@ fn make_samples(world: &World, units: &[Unit]) -> Vec<Value> {
         for call in [n / 3, n / 2 + 7] {
             let call = call.min(n - 1);
             if let Some(m) = world.materialise(u, call) {
-                let res = (world.cat[m.entry].call)(&m.bytes, false).res;
+                let outcome = match pr.probe_with(m.entry, &m.bytes, true) {
+                    Ok(v) => v,
+                    Err(sig) => json!({"abort": sig}),
+                };
                 out.push(json!({
                     "unit": world.describe_unit(u), "call_index": call, "fault": m.desc, "entry_point": world.cat[m.entry].name,
                     "input_len": m.bytes.len(),
                     "input_hex_prefix": hex::encode(&m.bytes[..m.bytes.len().min(48)]),
-                    "outcome": res_json(&res),
+                    "outcome": outcome,
                 }));
                 break;
             }
@@ -1025,6 +1012,7 @@ fn make_samples(world: &World, units: &[Unit]) -> Vec<Value> {
             break;
         }
     }
+    pr.close();
     out
 }
 
